@@ -590,6 +590,11 @@ fn plan_files(rng: &mut Rng, seeds: &BTreeMap<String, Vec<u8>>, lays: &BTreeMap<
             }
         }
     }
+    if let Some(l) = lays.get("rich") {
+        // known finding: doctor zero-fills the WAL region the header points to (here 4 MiB past the end), then the
+        // re-open finds no valid footer and scan_range_for_toc hashes the tail of every offset of the grown file
+        v.push(FileCase { base: "rich".into(), ops: vec![Op::Set(18, vec![0x41]), Op::Xor(l.len - 24, 1)], label: "quadratic-scan-witness".into() });
+    }
     let names: Vec<String> = lays.keys().cloned().collect();
     // truncation at every field boundary of every seed (±1 on a sample)
     for s in &names {
@@ -1586,7 +1591,18 @@ fn file_decoder_checks(cx: &mut Cx, bytes: &[u8], label: &str) {
     }
 }
 
-fn judge_file(cx: &mut Cx, fc: &FileCase, outcomes: &[ApiOutcome]) {
+/// the failure class "scan_range_for_toc is quadratic": no valid commit footer anywhere, and the file (after
+/// doctor has zero-filled the WAL region the header names; the child's file-size limit caps that) is large
+/// enough that hashing the tail of every offset exceeds the CPU limit (cost model: n^2/2 bytes at 1 GB/s)
+fn quadratic_scan_expected(bytes: &[u8]) -> bool {
+    let Ok(hdr) = decode_header(bytes) else { return false };
+    if find_last_valid_footer(bytes).is_some() { return false; }
+    let grown = (bytes.len() as u64).max(hdr.wal_offset.saturating_add(hdr.wal_size)).min(96 << 20);
+    let n = grown.min(64 << 20) as u128;
+    n * n / 2 >= 20_000_000_000u128
+}
+
+fn judge_file(cx: &mut Cx, fc: &FileCase, outcomes: &[ApiOutcome], bytes: &[u8]) {
     let case = fc.to_json();
     let mut summary: Vec<String> = Vec::new();
     let mut crashed = false;
@@ -1596,9 +1612,10 @@ fn judge_file(cx: &mut Cx, fc: &FileCase, outcomes: &[ApiOutcome]) {
         cx.sum.branch(&format!("api.{}.{}", o.api, o.class));
         if matches!(o.class.as_str(), "panic" | "abort" | "timeout") {
             crashed = true;
-            let sig = crash_signature(o);
+            let sig = if o.class == "timeout" && quadratic_scan_expected(bytes) { "quadratic-toc-scan-exceeds-time-limit".to_string() } else { crash_signature(o) };
             let what = format!("{} on a [{}] file: {} {}", o.api, fc.label, o.class, o.detail);
-            // file-level crashes are never excused by the model (it only speaks about the decoders it covers)
+            // file-level crashes are never excused by the model (it only speaks about the decoders it covers); the one
+            // listed class is recognised by the predicate above (the model proves the scan terminates, not how fast)
             if cx.known.iter().any(|k| *k == sig) { cx.sum.known_finding(&sig, &what, case.clone()); }
             else { cx.sum.oracle_violation(&sig, &what, case.clone()); }
         }
@@ -1685,7 +1702,7 @@ fn main() {
             std::fs::write(&p, &bytes).expect("write");
             let out = run_file(&p, &dir.path().join("replay-tmp"));
             file_decoder_checks(&mut cx, &bytes, &fc.label);
-            judge_file(&mut cx, &fc, &out);
+            judge_file(&mut cx, &fc, &out, &bytes);
         }
         drop(cx);
         if let Some(d) = drv_holder.as_ref() { sum.model_requests = d.requests; }
@@ -1752,7 +1769,7 @@ fn main() {
         for (i, fc) in plan.iter().enumerate() {
             let bytes = fc.apply(&seeds_arc);
             file_decoder_checks(&mut cx, &bytes, &fc.label);
-            judge_file(&mut cx, fc, results[i].as_deref().unwrap_or(&[]));
+            judge_file(&mut cx, fc, results[i].as_deref().unwrap_or(&[]), &bytes);
         }
         cx.sum.notes.push(format!("part B: {} files x {} API groups in child processes: {:.1}s with {} workers; in-process decoder checks + judging {:.1}s",
             plan.len(), GROUPS.len(), child_secs, jobs, tb.elapsed().as_secs_f64() - child_secs));
